@@ -15,7 +15,9 @@ GUARD = "salsa_rs_salsa_verif"
 
 FORBIDDEN = re.compile(
     r"\b(Admitted|admit|Axiom|Axioms|Parameter|Parameters|Conjecture|Conjectures|Admit Obligations|"
-    r"Unset Guard Checking|bypass_check|native_compute|Unset Positivity Checking|Unset Universe Checking)\b"
+    r"Unset Guard Checking|bypass_check|native_compute|Unset Positivity Checking|Unset Universe Checking|"
+    r"Extract Constant|Extract Inlined Constant|Extract Inductive|ExtrOcamlNatInt|ExtrOcamlZInt|ExtrOcamlNativeString|"
+    r"ExtrOcamlString|ExtrOcamlIntConv|ExtrOcamlNatBigInt|ExtrOcamlZBigInt)\b"
 )
 
 
